@@ -31,6 +31,9 @@ class EvalInterp(Interp):
 
     def _compare(self, args, node):
         self.events.append(('compare', tuple(args)))
+        if getattr(self, 'concrete_rank', None) is not None:
+            from .libsim import ref_value_compare
+            return ref_value_compare(reify(args[0]), reify(args[1]), self.concrete_rank)
         if all(isinstance(a, (int, float)) and not isinstance(a, bool) for a in args[:2]):
             return (args[0] > args[1]) - (args[0] < args[1])
         if getattr(self, 'free_compare', False):
@@ -57,6 +60,8 @@ class EvalInterp(Interp):
                 if CLASS_NAMES[c] in INSTANCE_OF[atom]:
                     return True
             return False
+        if name == 'type' and len(args) == 1 and isinstance(args[0], Sym) and args[0].kind in ('val', 'result') and len(args[0].args) > 2:
+            return ('typeof', args[0].args[2])
         return super().builtin_hook(name, args, e)
 
     def _boolean(self, args, node):
@@ -457,6 +462,45 @@ def arithmetic_spelling(repo, rule='E6e'):
                     if not same:
                         problems.append(('spelling', f'{a} {op} {b} evaluates to {_fmt(base)} when both operands are host ints and to {_fmt(v)} when they are spelled {k[0]} {op} {k[1]}'))
                         break
+    return n, problems
+
+
+def relational_concrete(repo, rule='E6e'):
+    """the six relational operators on every ordered pair of concrete sample values (null, booleans, numbers, strings, nested arrays and objects):
+    each result must be the sign test of the reference value order (value_compare itself is an oracle answering by that reference: the
+    function's own code is decided separately) -> (n evaluations, problems)"""
+    from .libsim import compare_values, ref_value_compare, _abs
+    mod = repo.module('runtime')
+    func = mod.funcs.get('evaluate_expression')
+    it = EvalInterp(repo, mod, rule)
+    rank, vals = compare_values()
+
+    def concrete(v):
+        if isinstance(v, Sym):
+            return False
+        if isinstance(v, list):
+            return all(concrete(x) for x in v)
+        if isinstance(v, dict):
+            return all(concrete(x) for x in v.values())
+        return True
+    vals = [(d, v) for d, v in vals if concrete(v)]
+    tests = {'==': lambda c: c == 0, '!=': lambda c: c != 0, '<': lambda c: c < 0, '<=': lambda c: c <= 0, '>': lambda c: c > 0, '>=': lambda c: c >= 0}
+    problems, n = [], 0
+    it.concrete_rank = rank
+    for op, test in tests.items():
+        expr = build({'binary': {'op': op, 'left': {'variable': 'a'}, 'right': {'variable': 'b'}}})
+        for da, a in vals:
+            for db, b in vals:
+                n += 1
+                it.behaviour, it.truths, it.cmp_operands, it.free_compare = {}, {}, None, False
+                try:
+                    got = it.evaluate(func, expr, None, ADict({'a': _abs(a), 'b': _abs(b)}), True, 'off')
+                except (Unrecognised, HostTruth) as exc:
+                    problems.append(('undecided', f'{da} {op} {db}: {str(exc)[:80]}'))
+                    continue
+                want = test(ref_value_compare(a, b, rank))
+                if got != ('value', want) or not isinstance(got[1], bool):
+                    problems.append(('relational', f'{da} {op} {db} evaluates to {_fmt(got)}; the total value order gives {want}'))
     return n, problems
 
 
